@@ -206,6 +206,8 @@ def call_external(self, st, name, args, kwargs, node):
     if stub is not None:
         return stub(self, st, args, kwargs, node)
     last = name.split(".")[-1]
+    if name in ("six.moves.zip", "six.moves.range", "six.moves.map", "six.moves.filter", "builtins.zip", "builtins.range"):
+        return call_builtin(self, st, last, args, kwargs, node)
     if name.startswith("re."):
         r = fold_regex_call(self, name, args, kwargs)
         if r is not KeyError:
@@ -404,8 +406,17 @@ def list_method(self, st, ref, o, name, args, kwargs, node):
         c = o.copy()
         return [(st, "val", st.alloc(c))]
     if name in ("index", "count"):
+        if o.items is not None and len(args) == 1 and all(_plain(x) for x in o.items) and _plain(args[0]):
+            if name == "count":
+                return [(st, "val", list(o.items).count(args[0]))]
+            if args[0] in o.items:
+                return [(st, "val", list(o.items).index(args[0]))]
+            return self.raise_exc(st, "ValueError", node, "index", "%r is not in list" % (args[0],))
         return [(st, "val", Top("list." + name))]
     if name == "remove":
+        if o.items is not None and len(args) == 1 and all(_plain(x) for x in o.items) and _plain(args[0]) and args[0] in o.items:
+            o.items = list(o.items)
+            o.items.remove(args[0])
         return [(st, "val", None)]
     raise U("list.%s at %s" % (name, self.loc(node)))
 
@@ -693,6 +704,19 @@ def call_builtin(self, st, name, args, kwargs, node):
                 def fac(interp, s, _seq=seq):
                     return [(s2, (Top("index", True), e), lbl) for (s2, e, lbl) in _seq.factory(interp, s)]
                 return [(st, "val", AbsSeq("enumerate(%s)" % seq.name, fac, seq.nonempty))]
+        if name == "zip" and args and not any(isinstance(a, Top) for a in args):
+            parts = []
+            try:
+                for a in args:
+                    kind, seq = self.iter_values(st, a, node)
+                    if kind != "concrete":
+                        parts = None
+                        break
+                    parts.append(list(seq))
+            except AnalysisError:
+                parts = None
+            if parts is not None:
+                return [(st, "val", tuple(zip(*parts)))]
         if name == "object":
             return [(st, "val", st.alloc(HObj("object")))]
         return [(st, "val", Top(name + "()", False))]
